@@ -1399,3 +1399,70 @@ Definition run (sigma : list string -> list string) (io : nat -> bool) (i : inpu
 
 Definition id_order (l : list string) : list string := l.
 Definition no_fault (_ : nat) : bool := true.
+
+(* ------------------------------------------------ decidable guards (C18) *)
+
+(* The boolean guards of the classification theorems.  They are definitions, not
+   proofs: the correspondence check evaluates them on every sampled case to
+   measure how much of the stream lies inside the theorems' domain. *)
+
+Definition tname (t : texpr) : option string :=
+  match t with TId n => Some n | TStar (TId n) => Some n | _ => None end.
+
+(* position of the first type spec named n *)
+Fixpoint pos (n : string) (l : list tspec) : option nat :=
+  match l with
+  | [] => None
+  | s :: r => if ts_name s =? n then Some 0 else option_map S (pos n r)
+  end.
+
+(* a reference to m from the spec at position p: m is undeclared or declared strictly earlier *)
+Definition ref_ok (tops : list tspec) (p : nat) (m : string) : bool :=
+  match pos m tops with None => true | Some q => Nat.ltb q p end.
+
+Definition spec_ok (tops : list tspec) (p : nat) (s : tspec) : bool :=
+  match ts_body s with
+  | BStruct fs => forallb (fun f => if is_embedded f
+                                    then match tname (fd_type f) with Some m => ref_ok tops p m | None => true end
+                                    else true) fs
+  | BOther (TId m) => ref_ok tops p m
+  | _ => true
+  end.
+
+Fixpoint specs_ok (tops : list tspec) (p : nat) (l : list tspec) : bool :=
+  match l with
+  | [] => true
+  | s :: r => spec_ok tops p s && specs_ok tops (S p) r
+  end.
+
+(* "declared before use": every embedded field and every `type A B` refers to an earlier declaration *)
+Definition ordered (tops : list tspec) : bool := specs_ok tops 0 tops.
+
+(* function declarations on which the mapper's syntactic inspections are safe *)
+Definition named (ps : list param) : bool :=
+  forallb (fun p => match pa_names p with [] => false | _ => true end) ps.
+
+Definition safe_fdecl (f : fdecl) : bool :=
+  match fn_body f with Some _ => true | None => false end &&
+  named (fn_params f) &&
+  match fn_recv f with Some r => named r | None => true end &&
+  match fn_results f with Some [] => false | _ => true end &&
+  (negb (String.prefix "Set" (fn_name f)) ||
+   match fn_recv f, fn_params f with Some _, [] => false | _, _ => true end).
+
+Definition safe_funcs (files : list file) : bool :=
+  forallb (fun x => safe_fdecl (snd x)) (funcs_of files).
+
+(* every Go file of the package has a package clause *)
+Definition has_pkg_clauses (files : list file) : bool := forallb (fun f => negb (f_pkg f =? "")) files.
+
+Definition is_file (e : entry) : bool := match e with EFile _ => true | _ => false end.
+Definition files_only (d : list (string * entry)) : bool := forallb (fun x => is_file (snd x)) d.
+
+(* the guard of C18_always_a_deliberate_exit, decidable form *)
+Definition input_ok (i : input) : bool :=
+  ordered (top_tspecs (i_files i)) && safe_funcs (i_files i) && has_pkg_clauses (i_files i) &&
+  forallb (fun x => match snd x with
+                    | DestPkg _ fs => ordered (top_tspecs fs) && safe_funcs fs
+                    | DestFile => true
+                    end) (i_dests i).
